@@ -2,7 +2,8 @@
    Only statements closed by `exact`, with Print Assumptions, and non-vacuity examples. *)
 From Coq Require Import List ZArith QArith Bool.
 From PV Require Import lib.Sx lib.Str lib.Result model.GenSccw model.SccWrap model.SccWrite spec.SpecSccw.
-From PV Require Import proofs.SccWriteFacts proofs.SccWrapFacts proofs.SccLayoutFacts proofs.SccTimingFacts.
+From PV Require Import proofs.SccWriteFacts proofs.SccWrapFacts proofs.SccWordsFacts proofs.SccDecodeFacts
+     proofs.SccLayoutFacts proofs.SccTimingFacts.
 Import ListNotations.
 
 (* ---- tables of the working tree (complete, re-proved on every run) ------------------------------- *)
@@ -86,6 +87,26 @@ Theorem C17_wrap_keeps_nonspace : forall width text, (1 <= width)%nat ->
 Proof. exact wrap_keeps_nonspace. Qed.
 Print Assumptions C17_wrap_keeps_nonspace.
 
+(* ---- rows are broken only at spaces; only words longer than the width are split ------------------------
+   `refines w ws ps` (spec/SpecSccw.v, the relation the check's oracle evaluates): every word of ws appears
+   whole in ps, or - only when longer than w - as consecutive non-empty pieces; nothing else appears. *)
+Theorem C17_wrap_refines_words : forall width text, (1 <= width)%nat -> plain text = true ->
+  refines width (words text) (flat_map words (wrap width text)) = true.
+Proof. exact wrap_refines_words. Qed.
+Print Assumptions C17_wrap_refines_words.
+(* the whole caption (lines separated by line breaks), for every text over the tree's basic character set *)
+Theorem C17_layout_refines_words : forall text, basic_text text = true ->
+  refines 32 (words text) (flat_map words (map snd (layout_rows text))) = true.
+Proof. exact layout_refines_words_basic. Qed.
+Print Assumptions C17_layout_refines_words.
+
+(* ---- re-reading at the level of CEA-608: the specification's decoder, run on the writer's word stream for a
+        text over the basic set laid out on <= 15 rows, returns exactly the rows (number, text) -------------- *)
+Theorem C17_decode_rows : forall text, basic_text text = true -> (length (layout_rows text) <= 15)%nat ->
+  exists ws, text_to_words text = Ok ws /\ decode_body ws None [] = Some (layout_rows text).
+Proof. exact decode_rows_basic. Qed.
+Print Assumptions C17_decode_rows.
+
 (* ---- timing ------------------------------------------------------------------------------------------ *)
 (* PASS 2 is a one-caption look-ahead *)
 Theorem C17_pass2_lookahead : forall c s e todo,
@@ -119,6 +140,14 @@ Example C17_example_long_word :
   wrap 32 (lit "ab xxxxxxxxxxxxxxxxxxxxxxxxxxxxxxxxxxxxxxxx")
   = [lit "ab xxxxxxxxxxxxxxxxxxxxxxxxxxxxx"; lit "xxxxxxxxxxx"].
 Proof. vm_compute. reflexivity. Qed.
+Example C17_example_refines :
+  basic_text (lit "ab xxxxxxxxxxxxxxxxxxxxxxxxxxxxxxxxxxxxxxxx") = true /\
+  flat_map words (map snd (layout_rows (lit "ab xxxxxxxxxxxxxxxxxxxxxxxxxxxxxxxxxxxxxxxx")))
+  = [lit "ab"; lit "xxxxxxxxxxxxxxxxxxxxxxxxxxxxx"; lit "xxxxxxxxxxx"] /\
+  refines 32 [lit "ab"; lit "xxxxxxxxxxxxxxxxxxxxxxxxxxxxxxxxxxxxxxxx"]
+             [lit "ab"; lit "xxxxxxxxxxxxxxxxxxxxxxxxxxxxxxxxxxxx"; lit "xxxx"] = true /\
+  refines 32 [lit "cccccccc-dddddddddd"] [lit "cccccccc-"; lit "dddddddddd"] = false.
+Proof. vm_compute. repeat split. Qed.
 Example C17_example_code :
   text_to_code (lit "Hi!") = Ok (lit "9470 9470 c8e9 a180 ").
 Proof. vm_compute. reflexivity. Qed.
